@@ -220,6 +220,7 @@ structure Tamper where
   after  : List (Option Frame) := []   -- inserted after it (none = a verbatim copy of the frame)
   answer : Bool := false      -- B answers this message with a Reply …
   bounce : Bool := false      -- … which the man in the middle also sends back to B
+  alterReply : Bool := false  -- … or alters on its way to A (a B→A frame with a flipped bit)
 
 /-- B's reply to message `i`, as B packs it (signed with B's key 8) -/
 def replyFrame (i : Nat) : Frame := pack 8 1 [] { typ := 1, value := natBE 4 i } i true
@@ -245,6 +246,7 @@ def applyOp (n : Nat) (o : MitmOps) (op : String) : Option MitmOps :=
     | "I" => some (upd { t with before := t.before ++ [.raw 4] })
     | "R" => some (upd { t with after := t.after ++ [none] })
     | "V" => some (upd { t with answer := true, bounce := true })
+    | "A" => some (upd { t with answer := true, alterReply := true })
     | "M" => some { o with mirror := o.mirror ++ [i] }
     | _ => none
   | _ => none
@@ -291,7 +293,8 @@ def stepMitm (checkAny drains : Bool) (msgs ops : String) : String :=
       let early := replies.filter (· ≠ n)
       let late := replies.filter (· = n)
       let cA := connA checkAny drains
-      let stA := (early.map replyFrame ++ mirrors ++ late.map replyFrame).foldl (rstep cA) {}
+      let frameToA := fun (i : Nat) => if (o.tab i).alterReply then Frame.raw 7 else replyFrame i
+      let stA := (early.map frameToA ++ mirrors ++ late.map frameToA).foldl (rstep cA) {}
       let toA := ((List.range nTypes).map fun t => (toSubscriber t stA.out).length).foldl (· + ·) 0
       let rep := answered.map fun (i, _) =>
         if stA.out.any (fun d => d.reply ∧ d.nonce = i ∧ beNat d.value = i) then "ok" else "err"
@@ -300,7 +303,7 @@ def stepMitm (checkAny drains : Bool) (msgs ops : String) : String :=
       showOut ts.length stB ++ s!" a={toA} aalive={aalive} rep={reps}"
 
 /-- `own <items>`: what the harness's own endpoint sends, well framed -/
-def ownFrame (i : Nat) (item : String) : Option Frame :=
+def ownFrame (its : List String) (i : Nat) (item : String) : Option Frame :=
   let kind := (item.take 1).toString
   let args := ((item.drop 1).toString.splitOn ":").filterMap String.toNat?
   let t := args.getD 0 0
@@ -316,11 +319,25 @@ def ownFrame (i : Nat) (item : String) : Option Frame :=
   | "K" => some (.sealed 2 (.pkg { any := some a, sig := .good 7 a.value, nonce := i }))
   | "M" => some (.sealed 1 (.pkg { any := some { a with wf := false }, sig := .good 7 a.value, nonce := i }))
   | "P" => some (pack 7 1 [] (msgOf i t) i true)
+  | "Q" =>
+    -- derived from the accepted packet `t` (= item index j): modes 0–4 carry a (payload, signature) pair
+    -- that is not BLS(key, payload) — another split of the same bytes, a truncated / extended / swapped
+    -- signature; mode 5 is the same package re-encoded (a copy of packet j)
+    -- … mode 3 is the signature followed by extra bytes: bn256 G1 decoding reads 64 bytes and ignores the
+    -- rest (as the code is), so it verifies — a second packet of payload j under this packet's nonce
+    let mode := args.getD 1 0
+    if mode = 5 ∨ mode = 3 then
+      let itj := its.getD t ""
+      if (itj.take 1).toString == "G" then
+        let tj := (((itj.drop 1).toString.splitOn ":").filterMap String.toNat?).getD 0 0
+        some (pack 7 1 [] (msgOf t tj) (if mode = 5 then t else i) false)
+      else none
+    else some (.sealed 1 (.pkg { any := some { typ := 0, value := natBE 4 i }, sig := .bad mode, nonce := i }))
   | _ => none
 
 def stepOwn (checkAny drains : Bool) (items : String) : String :=
   let its := (if items == "-" then [] else items.splitOn ",") ++ ["G0"]
-  match (List.zip (List.range its.length) its).mapM fun (i, it) => ownFrame i it with
+  match (List.zip (List.range its.length) its).mapM fun (i, it) => ownFrame its i it with
   | none => "bad-op"
   | some frames => showOut its.length (recvAll (theConn checkAny drains) frames)
 
